@@ -468,4 +468,12 @@ theorem darr_bounded (t : Ty) (block : Bytes) (hs hp r : Nat) (cs : List CV)
   · cases h
   · cases h
 
+/-! ### non-vacuity: concrete inputs on which the hypotheses hold (evaluated by the kernel) -/
+def okB {α : Type} : Outcome α → Bool | .ok _ => true | _ => false
+/-- non-vacuity: a well-formed `uint256[]` block decodes to a two-element array; a block claiming 2^200 elements is an error -/
+example : (match parseParam (.mk "a" "uint256[]" false "" []) with
+    | .ok t => okB (decode t (toBE 32 32 ++ toBE 32 2 ++ toBE 32 7 ++ toBE 32 8) 0 0) &&
+               !okB (decode t (toBE 32 32 ++ toBE 32 (2 ^ 200) ++ toBE 32 7) 0 0)
+    | _ => false) = true := by decide +kernel
+
 end FFS.Props.C11
